@@ -133,15 +133,16 @@ enum {
   K_MORPH_READGRAPH,   // MorphGraph via readGraph (directed / in-out / undirected)
   K_INOUT_OTHER,       // LC_InOut_Graph over LC_Linear_Graph
   K_HYPER,             // LC_CSR_Hypergraph (allocateFrom + per-thread constructFrom)
+  K_LCMORPH_API,       // LC_Morph_Graph from the edge list through createNode / addMultiEdge / addEdge (+ removeEdge)
   K_COUNT
 };
 static const char* const KIND_NAME[] = {"csr_readgraph", "csr_arrays",  "csr_arrays_pod", "csr_grfile",      "csc_readgraph",
                                         "csc_grfile",    "inout_pair",        "inout_sym",   "linear",         "inline",          "lcmorph_readgraph",
-                                        "lcmorph_aux",   "adaptor",           "morph_readgraph", "inout_other", "hypergraph"};
+                                        "lcmorph_aux",   "adaptor",           "morph_readgraph", "inout_other", "hypergraph", "lcmorph_api"};
 static_assert(sizeof(KIND_NAME) / sizeof(KIND_NAME[0]) == K_COUNT, "kind names");
 static const char* const KIND_SUBJECT[] = {"LC_CSR_Graph",     "LC_CSR_Graph",   "LC_CSR_Graph",      "LC_CSR_Graph",   "LC_CSR_CSC_Graph",
                                            "LC_CSR_CSC_Graph", "LC_InOut_Graph",   "LC_InOut_Graph", "LC_Linear_Graph",   "LC_InlineEdge_Graph", "LC_Morph_Graph",
-                                           "LC_Morph_Graph",   "LC_Adaptor_Graph", "MorphGraph",     "LC_InOut_Graph",    "LC_CSR_Hypergraph"};
+                                           "LC_Morph_Graph",   "LC_Adaptor_Graph", "MorphGraph",     "LC_InOut_Graph",    "LC_CSR_Hypergraph", "LC_Morph_Graph"};
 static_assert(sizeof(KIND_SUBJECT) / sizeof(KIND_SUBJECT[0]) == K_COUNT, "kind subjects");
 
 // operations applied one after the other (base-6 digits of the "ops" field)
